@@ -101,6 +101,47 @@ theorem C20_never_crashes (tb : Tables α) (threads : List (Thread κ α μ)) (s
   obtain ⟨_, _, hev⟩ := (inv_run tb threads sched).events t i _ h
   exact hev
 
+/-! ### Entity churn: entities set up, used and dropped while others come after them -/
+
+/-- Churn: a signature reported for operation `i` of thread `t` carries the key of the entity `t` set up LAST
+    before `i` — whatever came before that set-up (`pre`: any number of earlier short-lived entities of this
+    thread, with any keys, used or not) and whatever the other threads set up, signed or dropped meanwhile (any
+    thread set, any schedule): nothing of an earlier entity survives into a later entity's signatures. -/
+theorem C20_churn_last_setup (tb : Tables α) (threads : List (Thread κ α μ)) (sched : List Nat)
+    (t i : Nat) (th : Thread κ α μ) (alg : α) (msg : μ) (s : Sig κ α μ)
+    (pre post : List (Op κ α μ)) (p : Nat) (c : κ)
+    (ht : threads[t]? = some th)
+    (hsplit : th.prog.take i = pre ++ .setup p c :: post)
+    (hpost : ∀ op ∈ post, setupContent op = none)
+    (h : (t, i, Event.signed alg msg s) ∈ (run tb threads sched).out) :
+    s = ⟨c, alg, msg⟩ ∧ verifies c alg msg s = true ∧ ∀ k, k ≠ c → verifies k alg msg s = false := by
+  obtain ⟨th0, hth0, hv, hno⟩ := C20_own_key tb threads sched t i alg msg s h
+  obtain ⟨th1, hth1, _, hs⟩ := C20_signature_exact tb threads sched t i alg msg s h
+  rw [ht] at hth0 hth1
+  cases hth0
+  cases hth1
+  have hk : keyAfter th.key (th.prog.take i) = c := by
+    rw [hsplit]; exact keyAfter_last_setup _ _ _ _ _ hpost
+  rw [hk] at hv hno hs
+  exact ⟨hs, hv, hno⟩
+
+/-- No process-wide state reaches a signature: two runs — any algorithm tables, ANY other threads, any
+    schedules, any entities created and dropped by anybody before — that both report a signature for operation `i`
+    of a thread with the same key and program report the SAME signature. -/
+theorem C20_signature_history_free (tb tb' : Tables α) (threads threads' : List (Thread κ α μ)) (sched sched' : List Nat)
+    (t t' i : Nat) (alg alg' : α) (msg msg' : μ) (s s' : Sig κ α μ)
+    (hsame : threads[t]? = threads'[t']?)
+    (h : (t, i, Event.signed alg msg s) ∈ (run tb threads sched).out)
+    (h' : (t', i, Event.signed alg' msg' s') ∈ (run tb' threads' sched').out) :
+    alg = alg' ∧ msg = msg' ∧ s = s' := by
+  obtain ⟨th, hth, hop, hs⟩ := C20_signature_exact tb threads sched t i alg msg s h
+  obtain ⟨th', hth', hop', hs'⟩ := C20_signature_exact tb' threads' sched' t' i alg' msg' s' h'
+  rw [hsame, hth'] at hth
+  cases hth
+  rw [hop] at hop'
+  cases hop'
+  exact ⟨rfl, rfl, hs.trans hs'.symm⟩
+
 /-! ### Link to the decidable specification evaluated on the implementation's output -/
 
 /-- Reading of the checker for signatures: accepted only for a sign operation, with the caller's key
@@ -304,5 +345,25 @@ example : specOk allAlgs (some pubEx) setupThreads [(1, 1, Obs.signed [12] (some
 /-- The completion used by the driver finishes every program. -/
 example : (run someAlgs threeThreads (complete threeThreads [2, 2])).ts.all
     (fun st => st.rest.isEmpty && decide (st.pend = .idle)) = true := by decide
+
+/-- Churn (`C20_churn_last_setup` has instances): thread 0 sets up and drops entities with keys 11, 12, 11, 13 one
+    after the other (one of them never used), thread 1 does the same with 12, 11 in between, a long-lived entity
+    (key 30) keeps signing; every signature is under the key of its thread's LAST set-up.  The split of thread 0's
+    program before its operation 6 is `pre ++ setup 1 13 :: []`. -/
+def churnThreads : List (Thread Nat Nat Nat) :=
+  [⟨10, [.setup 1 11, .sign 1 100, .setup 1 12, .setup 2 11, .sign 1 101, .setup 1 13, .sign 1 102]⟩,
+   ⟨20, [.setup 1 12, .sign 1 200, .setup 1 11, .sign 1 201]⟩,
+   ⟨30, [.sign 1 300, .sign 1 301]⟩]
+
+example : ((run allAlgs churnThreads (complete churnThreads [0, 1, 1, 2, 0, 1, 0, 0, 2, 1, 0])).out.filter
+      (fun p => match p.2.2 with | .signed _ _ _ => true | _ => false)).map (fun p => (p.1, p.2.1,
+        match p.2.2 with | .signed _ _ s => s.key | _ => 0)) =
+    [(1, 1, 12), (0, 1, 11), (2, 0, 30), (0, 4, 11), (0, 6, 13), (1, 3, 11), (2, 1, 30)] := by decide
+example : (churnThreads[0]?.map (fun th => th.prog.take 6)) =
+    some ([.setup 1 11, .sign 1 100, .setup 1 12, .setup 2 11, .sign 1 101] ++ .setup 1 13 :: []) := by decide
+/-- the specification rejects a signature under the key of an entity the thread had dropped before (12, 11) -/
+example : specOk allAlgs none churnThreads [(0, 6, Obs.signed [13] none)] = true := by decide
+example : specOk allAlgs none churnThreads [(0, 6, Obs.signed [11] none)] = false := by decide
+example : specOk allAlgs none churnThreads [(1, 3, Obs.signed [12] none)] = false := by decide
 
 end C20
